@@ -182,6 +182,8 @@ const (
 	// StretchMinimizingParameterization with weights that have entries centred at boundary vertices
 	// (uniform, inverse chord length) on a disc with a vertex all of whose faces have three boundary vertices
 	tagStretch = "stretch-boundary-centres"
+	// Floater97ShapePreservingWeights clamps the cosine of a wedge angle to [0, 1]: angles above 90 degrees count as 90
+	tagObtuse = "shape-weights-obtuse-wedge"
 )
 
 // guarded runs f and reports whether the library's linear solver gave up with its NaN panic.
@@ -222,15 +224,15 @@ type chartCase struct {
 }
 
 func genChart(t *rapid.T) chartCase {
-	c := chartCase{Mesh: meshGen(t, true), API: rapid.SampledFrom([]string{"plain", "limited"}).Draw(t, "api"), Again: rapid.IntRange(0, 50).Draw(t, "again")}
+	c := chartCase{Mesh: meshGen(t, true), API: pick(t, []string{"plain", "limited"}, "api"), Again: gen.Int(t, 0, 50, "again")}
 	if c.API == "limited" {
-		switch rapid.IntRange(0, 2).Draw(t, "limit") {
+		switch gen.Int(t, 0, 2, "limit") {
 		case 0:
-			c.MaxSize = rapid.IntRange(1, 80).Draw(t, "maxsize")
+			c.MaxSize = gen.Int(t, 1, 80, "maxsize")
 		case 1:
 			c.MaxAreaFrac = gen.LogF(t, 0.002, 0.6, "maxarea")
 		default:
-			c.MaxSize = rapid.IntRange(1, 80).Draw(t, "maxsize")
+			c.MaxSize = gen.Int(t, 1, 80, "maxsize")
 			c.MaxAreaFrac = gen.LogF(t, 0.002, 0.6, "maxarea")
 		}
 	}
@@ -318,17 +320,17 @@ type discSpec struct {
 }
 
 func discGen(t *rapid.T) discSpec {
-	d := discSpec{Source: rapid.SampledFrom([]string{"self", "chart", "chart"}).Draw(t, "source")}
+	d := discSpec{Source: pick(t, []string{"self", "chart", "chart"}, "source")}
 	if d.Source == "self" {
 		d.Mesh = meshSpec{MaxFaces: maxFacesGen(t)}
 		d.Mesh.Parts = []part{partGen(t, discKinds, d.Mesh.MaxFaces, "disc")}
 		return d
 	}
-	d.Mesh = meshGen(t, rapid.IntRange(0, 4).Draw(t, "thin?") == 0)
-	if rapid.Bool().Draw(t, "limit") {
-		d.MaxSize = rapid.IntRange(4, 200).Draw(t, "maxsize")
+	d.Mesh = meshGen(t, gen.Int(t, 0, 4, "thin?") == 0)
+	if gen.Int(t, 0, 1, "limit") == 1 {
+		d.MaxSize = gen.Int(t, 4, 200, "maxsize")
 	}
-	d.Chart = rapid.IntRange(0, 30).Draw(t, "chart")
+	d.Chart = gen.Int(t, 0, 30, "chart")
 	return d
 }
 
@@ -386,7 +388,7 @@ type splitCase struct {
 
 func genSplit(t *rapid.T) splitCase {
 	c := splitCase{Disc: discGen(t)}
-	if rapid.Bool().Draw(t, "decision") {
+	if gen.Int(t, 0, 1, "decision") == 1 {
 		d := gen.Dir3(t, "dir")
 		c.Decision = []float64{d[0], d[1], d[2], gen.F(t, 0, 1, "noise")}
 		c.Seed = rapid.Uint64().Draw(t, "seed")
@@ -456,12 +458,15 @@ type floaterCase struct {
 
 func genFloater(t *rapid.T) floaterCase {
 	var c floaterCase
-	c.Boundary = rapid.SampledFrom([]string{"circle", "circle", "pnorm", "pnorm", "square", "square", "custom", "custom", "planar"}).Draw(t, "boundary")
+	c.Boundary = pick(t, []string{"circle", "circle", "pnorm", "pnorm", "square", "square", "custom", "custom", "planar"}, "boundary")
 	if c.Boundary == "planar" {
 		// needs a disc whose own x,y boundary is convex: an unjittered, unplaced fan or height patch
 		c.Disc = discSpec{Source: "self", Mesh: meshSpec{MaxFaces: maxFacesGen(t)}}
 		p := partGen(t, []string{"fan", "height"}, c.Disc.Mesh.MaxFaces, "disc")
 		p.Jitter, p.Place = 0, nil
+		if gen.Int(t, 0, 1, "flat") == 1 {
+			p.P[0] = 0
+		}
 		c.Disc.Mesh.Parts = []part{p}
 	} else {
 		c.Disc = discGen(t)
@@ -471,7 +476,7 @@ func genFloater(t *rapid.T) floaterCase {
 		c.PNorm = gen.LogF(t, 1.3, 8, "p")
 	case "planar":
 		c.Affine = [6]float64{1, 0, 0, 1, 0, 0}
-		if rapid.Bool().Draw(t, "generic") {
+		if gen.Int(t, 0, 1, "generic") == 1 {
 			a, sx, sy := gen.F(t, -3.2, 3.2, "angle"), gen.LogF(t, 0.2, 5, "sx"), gen.LogF(t, 0.2, 5, "sy")
 			cs, sn := math.Cos(a), math.Sin(a)
 			c.Affine = [6]float64{cs * sx, -sn * sy, sn * sx, cs * sy, gen.F(t, -3, 3, "ox"), gen.F(t, -3, 3, "oy")}
@@ -480,24 +485,24 @@ func genFloater(t *rapid.T) floaterCase {
 		// rotation * diag * (optional reflection): condition number <= 5
 		a, sx, sy := gen.F(t, -3.2, 3.2, "angle"), gen.LogF(t, 0.2, 5, "sx"), gen.LogF(t, 1, 5, "aspect")
 		sy *= sx
-		if rapid.Bool().Draw(t, "reflect") {
+		if gen.Int(t, 0, 1, "reflect") == 1 {
 			sy = -sy
 		}
 		cs, sn := math.Cos(a), math.Sin(a)
 		c.Affine = [6]float64{cs * sx, -sn * sy, sn * sx, cs * sy, gen.F(t, -3, 3, "ox"), gen.F(t, -3, 3, "oy")}
 		c.BSeed = rapid.Uint64().Draw(t, "bseed")
 	}
-	c.Weights = rapid.SampledFrom([]string{"uniform", "invchord", "shape", "custom"}).Draw(t, "weights")
+	c.Weights = pick(t, []string{"uniform", "invchord", "shape", "custom"}, "weights")
 	switch c.Weights {
 	case "invchord":
 		c.R = gen.F(t, 0.25, 2.5, "r")
 	case "custom":
 		c.WSeed = rapid.Uint64().Draw(t, "wseed")
 		c.WSpread = gen.F(t, 0, 6, "wspread")
-		c.WBd = rapid.Bool().Draw(t, "wbd")
+		c.WBd = (gen.Int(t, 0, 1, "wbd") == 1)
 	}
-	if rapid.IntRange(0, 4).Draw(t, "stretch?") == 0 {
-		c.Stretch = rapid.IntRange(1, 6).Draw(t, "stretch")
+	if gen.Int(t, 0, 4, "stretch?") == 0 {
+		c.Stretch = gen.Int(t, 1, 6, "stretch")
 		c.Eta = gen.F(t, 0.2, 1, "eta")
 	}
 	return c
@@ -573,6 +578,11 @@ func planarOK(d discSpec) bool {
 	}
 	p := d.Mesh.Parts[0]
 	return (p.Kind == "fan" || p.Kind == "height") && p.Jitter == 0 && p.Place == nil
+}
+
+// planarDisc: the whole disc lies in the plane z = 0.
+func planarDisc(d discSpec) bool {
+	return planarOK(d) && d.Mesh.Parts[0].P[0] == 0
 }
 
 func planarBoundary(c floaterCase, s *surf) *model3d.CoordMap[model2d.Coord] {
@@ -828,6 +838,41 @@ func checkFloater(c floaterCase, o *kit.Obs) error {
 			}
 		}
 	}
+	// (b') shape-preserving weights reproduce a planar triangulation whose boundary is mapped affinely
+	// (Floater 1997, section 6: the geodesic polar map of a flat vertex star is a rigid motion, so the
+	// true positions satisfy every convex-combination equation and the system has a unique solution).
+	// Tolerance: the solver stops at a residual norm of 1e-8 sqrt(n); the inverse of the system matrix
+	// of an m x m grid has norm ~ 2 (m/pi)^2 <= 120 for m <= 24, so positions are off by < 1e-4 cells.
+	if c.Boundary == "planar" && c.Weights == "shape" && c.Stretch == 0 && planarDisc(c.Disc) {
+		obtuse := false
+		for _, f := range s.f {
+			for k := 0; k < 3; k++ {
+				v, a, bb := s.verts[f[k]], s.verts[f[(k+1)%3]], s.verts[f[(k+2)%3]]
+				if !s.onBd[f[k]] && a.Sub(v).Dot(bb.Sub(v)) < 0 {
+					obtuse = true
+				}
+			}
+		}
+		run := true
+		if obtuse {
+			o.Label("planar-reproduction:obtuse-wedge")
+			if kit.Excluded(tagObtuse) {
+				kit.CountExcluded(tagObtuse)
+				run = false
+			}
+		} else {
+			o.Label("planar-reproduction:acute")
+		}
+		for vi, v := range s.verts {
+			if !run || s.onBd[vi] {
+				continue
+			}
+			want := kit.V2{c.Affine[0]*v[0] + c.Affine[1]*v[1] + c.Affine[4], c.Affine[2]*v[0] + c.Affine[3]*v[1] + c.Affine[5]}
+			if d := want.Dist(uv[vi]); !(d <= 1e-4*scale) {
+				return fmt.Errorf("shape-preserving weights do not reproduce a planar triangulation: vertex %v of the flat disc should be at its own (affinely mapped) position %v but is at %v (distance %.3g, boundary size %.3g)", v, want, uv[vi], d, scale)
+			}
+		}
+	}
 	// (c) orientation and area.  Signed areas of an oriented disc always add up to the signed
 	// area of its boundary polygon, so "sum of |areas| = |polygon area|" holds iff nothing is flipped.
 	poly := 0.0
@@ -887,19 +932,19 @@ type atlasCase struct {
 }
 
 func genAtlas(t *rapid.T) atlasCase {
-	c := atlasCase{API: rapid.SampledFrom([]string{"auto", "pack", "pack"}).Draw(t, "api"), QSeed: rapid.Uint64().Draw(t, "qseed"), NQ: rapid.IntRange(5, 40).Draw(t, "nq")}
-	c.Mesh = meshGen(t, c.API == "pack" && rapid.IntRange(0, 4).Draw(t, "thin?") == 0)
+	c := atlasCase{API: pick(t, []string{"auto", "pack", "pack"}, "api"), QSeed: rapid.Uint64().Draw(t, "qseed"), NQ: gen.Int(t, 5, 40, "nq")}
+	c.Mesh = meshGen(t, c.API == "pack" && gen.Int(t, 0, 4, "thin?") == 0)
 	if c.API == "auto" {
-		c.Resolution = 1 << uint(rapid.IntRange(6, 10).Draw(t, "log2res"))
+		c.Resolution = 1 << uint(gen.Int(t, 6, 10, "log2res"))
 		return c
 	}
-	if rapid.IntRange(0, 2).Draw(t, "limit") > 0 {
-		c.MaxSize = rapid.IntRange(3, 120).Draw(t, "maxsize")
+	if gen.Int(t, 0, 2, "limit") > 0 {
+		c.MaxSize = gen.Int(t, 3, 120, "maxsize")
 	}
 	x0, y0 := gen.F(t, -3, 3, "x0"), gen.F(t, -3, 3, "y0")
 	c.Rect = [4]float64{x0, y0, x0 + gen.LogF(t, 0.1, 10, "w"), y0 + gen.LogF(t, 0.1, 10, "h")}
 	c.BorderFrac = gen.F(t, 0.01, 0.9, "border")
-	c.PNorm = rapid.SampledFrom([]float64{2, 4, 1.5, 3}).Draw(t, "p")
+	c.PNorm = pick(t, []float64{2, 4, 1.5, 3}, "p")
 	return c
 }
 
